@@ -3,6 +3,7 @@ import SJ.Proofs.SerLayout
 import SJ.Proofs.SerImage
 import SJ.Proofs.SerHints
 import SJ.Proofs.SerValue
+import SJ.Proofs.Recognise
 /-!
 # C03 — serialiser output is well-formed JSON that denotes the data
 
@@ -234,5 +235,19 @@ theorem c03_utf8_partial (s : Bytes) :
 
 /-- `é"é`: the fragments `é` are cut only at the escaped quote -/
 example : EscapeLocal.escapeStr [0xc3, 0xa9, 0x22, 0xc3, 0xa9] = [[0x22], [0xc3, 0xa9], [0x5c, 0x22], [0xc3, 0xa9], [0x22]] := rfl
+
+/-- **C03 (the checker of the implementation's bytes is sound).** Whatever the independent recogniser
+    used by the correspondence run accepts is an RFC 8259 JSON text with the returned syntax tree; in its
+    no-whitespace mode it is a bare `value` (so "no whitespace outside strings" holds of the accepted
+    bytes: the derivation starts and ends with the value and `recognise false` never skips a byte). -/
+theorem c03_recognise_sound (ws : Bool) (bs : Bytes) (t : CST) (h : Spec.Recognise.recognise ws bs = some t) :
+    JsonText bs t ∧ (ws = false → Derives bs t) :=
+  ⟨Recognise.recognise_sound ws bs t h, fun hw => by subst hw; exact Recognise.recognise_compact_sound bs t h⟩
+
+/-- `[ 1 , "a" ]` with whitespace is accepted only in whitespace mode -/
+example : Spec.Recognise.recognise true [0x5b, 0x20, 0x31, 0x20, 0x2c, 0x20, 0x22, 0x61, 0x22, 0x20, 0x5d]
+      = some (.arr [.num ⟨false, [0x31], [], []⟩, .str [.raw 0x61]]) ∧
+    Spec.Recognise.recognise false [0x5b, 0x20, 0x31, 0x20, 0x2c, 0x20, 0x22, 0x61, 0x22, 0x20, 0x5d] = none :=
+  ⟨rfl, rfl⟩
 
 end SJ.Props.C03
